@@ -119,6 +119,8 @@ func c13(c *orch.Ctx) (*report.Result, error) {
 			if i%2 == 1 {
 				p.Config.OpenAPI = "3.1.0"
 			}
+			// the experimental generated enum validators put the enum value lists into the routes file
+			p.Config.EnumValidator = i%4 < 2
 			projects = append(projects, p)
 		}
 	}
@@ -277,7 +279,13 @@ func c13(c *orch.Ctx) (*report.Result, error) {
 			prev.SpecOut, prev.RoutesOut = "./out-warmprev/openapi.json", "./out-warmprev/routes/gleece.routes.go"
 			prevMutate := func(doc map[string]any) {}
 			variant := "other-engine-first"
-			if warmIdx%2 == 0 {
+			if warmIdx%3 == 2 {
+				variant = "template-override-first"
+				_ = os.WriteFile(filepath.Join(dir, "ovr-response-headers.hbs"), []byte("\t// verif override marker (must not outlive the generation that configured it)\n"), 0o644)
+				prevMutate = func(doc map[string]any) {
+					doc["routesConfig"].(map[string]any)["templateOverrides"] = map[string]any{"ResponseHeaders": "./ovr-response-headers.hbs"}
+				}
+			} else if warmIdx%3 == 0 {
 				variant = "template-extension-first"
 				_ = os.WriteFile(filepath.Join(dir, "ext-register.hbs"), []byte("\t// verif extension marker (must not outlive the generation that configured it)\n"), 0o644)
 				prevMutate = func(doc map[string]any) {
